@@ -7,6 +7,7 @@ cycle cj replace quantifiers."""
 import re
 from lib import xtract as X
 from lib.core import Undecided
+from units.canon import MAINLOOP
 
 PRELUDE = r"""
 #include <stddef.h>
@@ -66,7 +67,7 @@ OP_RULES = [
 
 def _seq_unit(site, rel, bounded):
     log = []
-    text = X.src(rel)
+    text = X.canon(X.src(rel), MAINLOOP[:1], log)
     loop = X.stmt_after(text, r"std::set<std::size_t> cyclek;", r"\bfor\s*\(\s*std::size_t \w+ =", "update loop " + site)
     mv = re.match(r"for\s*\(\s*std::size_t (\w+) =", loop)
     L = mv.group(1)
@@ -126,7 +127,7 @@ void h_update(void) {
 
 def _tbb_unit(site, rel, bounded):
     log = []
-    text = X.src(rel)
+    text = X.canon(X.src(rel), MAINLOOP[:1], log)
     call = X.stmt_after(text, r"std::set<std::size_t> cyclek;", r"tbb::parallel_for\s*\(", "update parallel_for " + site)
     args = X.call_args(call)
     if len(args) != 2:
@@ -228,7 +229,7 @@ void h_disjoint(void) {
 
 def _swap_unit(site, rel, bounded):
     log = []
-    text = X.src(rel)
+    text = X.canon(X.src(rel), MAINLOOP[2:], log)
     # the heuristic block: from `auto min_support = k;` through the swap `if`
     blk = X.span(text, r"auto min_support = k;", r"std::swap\(support\[k\], support\[min_support\]\);\s*\}",
                  "sparsest-support block " + site)
